@@ -135,6 +135,11 @@ def scenarios():
             [_call(sv, 'json/athlete.json', D4), _call(sv, 'json/event.json', D4)])
         add('S5 valid_against_schema||valid_against_schema distinct keys, cache at %d' % n, [lambda n=n: fill_doc_cache(n)],
             [_call(va, 'sample-jsons/athlete.json', 'json/athlete.json'), _call(va, 'sample-jsons/event.json', 'json/event.json')], bound=(1, 2))
+    # two first validations against schemas that refer to other schema files (the resolver is involved), caches empty
+    add('S5 valid_against_schema||valid_against_schema schemas with file references, caches empty', [],
+        [_call(va, 'sample-jsons/event.json', 'json/event.json'), _call(va, 'sample-jsons/competition.json', 'json/competition.json')], tiers=('thorough',), bound=(2, 2))
+    add('S5 valid_against_schema athlete||event (one schema with file references), caches empty', [],
+        [_call(va, 'sample-jsons/athlete.json', 'json/athlete.json'), _call(va, 'sample-jsons/event.json', 'json/event.json')], bound=(2, 2))
     # a cache hit racing with an insertion that evicts exactly that (most recent) entry
     add('S5 schema_valid hit||evicting insert, cache at 20', [lambda: fill_schema_cache(19), _call(sv, 'json/athlete.json', D4)],
         [_call(sv, 'json/athlete.json', D4), _call(sv, 'json/event.json', D4)])
